@@ -212,6 +212,28 @@ Definition c18_never_stalls (c : case) : bool :=
   if rs_deleting (rc_spec c) && rs_finalizer (rc_spec c) && negb (ob_gone o) && ob_finalizer o && negb (ob_panic o)
   then ob_err o || ob_requeue o || negb (rstatus_eqb (rc_status c) (ob_status o)) else true.
 
+(* C02 and plan edits: while the current step of the edited plan still covers the released replicas, the rollout stays at that
+   step and does not become Ready by the edit (Proofs/RolloutSM.v: recalc_current_step_covers) *)
+Definition c02_plan_edit_is_no_way_around_the_pause (c : case) : bool :=
+  let sp := rc_spec c in let o := rc_obs c in let w := rc_wl c in
+  match rp_phase (rc_status c), rp_prog (rc_status c), rp_sub (rc_status c), rc_br c with
+  | RpProgressing, Some (PrInRolling, _, _), Some u, Some b =>
+    let plan_changed := negb (sempty (su_hash u)) && negb (String.eqb (su_hash u) (rs_hash sp)) in
+    if plan_changed && negb (rs_paused sp) && negb (rs_deleting sp) && negb (rs_disabled sp) && wl_exists w && wl_consistent w &&
+       String.eqb (wl_canary w) (su_canary_rev u) && negb (ob_panic o) && negb (ob_err o) && negb (ob_gone o) &&
+       (1 <=? su_idx u) && (su_idx u <=? nsteps sp) && negb (su_next u =? su_idx u)
+    then match br_partition b with
+         | Some p => match znth (br_batches b) p, get_step sp (su_idx u), rp_sub (ob_status o) with
+                     | Some cr, Some cur, Some v =>
+                       if scaled true cr (wl_replicas w) <=? scaled true (sp_replicas cur) (wl_replicas w)
+                       then (su_idx v =? su_idx u) && (sstate_eqb (su_state v) StInit || sstate_eqb (su_state v) StTraffic)
+                       else true
+                     | _, _, _ => true end
+         | None => true end
+    else true
+  | _, _, _, _ => true
+  end.
+
 (* ---------- C07: a quiet reconcile is waiting for somebody else ----------
    A reconcile that changes nothing (status, BatchRelease, workload annotation), reports no error and asks for no requeue
    will not run again by itself.  That is legitimate only while the next move is somebody else's: the workload controller's
@@ -279,6 +301,7 @@ Definition judge (c : case) : list verdict :=
    [ clause "C02_steps_are_gated" (c02_gated c);
      clause "C02_paused_no_progress" (c02_paused c);
      clause "C02_partition_raise_authorised" (c02_partition c);
+     clause "C02_plan_edit_is_no_way_around_the_pause" (c02_plan_edit_is_no_way_around_the_pause c);
      clause "C10_rollback_and_supersession_dispatch" (c10_dispatch c);
      clause "C07_quiet_reconcile_is_waiting_for_someone" (c07_quiet_means_waiting c) ]) ++
   [ clause "C18_rollout_finalizer_guard" (c18_finalizer c);
